@@ -69,8 +69,8 @@ theorem numExp_len (x y z : Bool) (l a b : List Char) (f : Bool) (h : numExp x y
               · split at h
                 · cases h
                 · split at h
-                  · rename_i c r _ _ _ s r1 _ d r3 hr2 _ a' b' hd
-                    cases h
+                  · cases h
+                    rename_i s r1 _ _ d r3 hr2 _ _ a' hd
                     have h1 := (digitsSep_len _ a' b hd).1
                     have h2 : (d :: r3).length ≤ (s :: r1).length := by
                       rw [← hr2]; split <;> simp
